@@ -24,6 +24,11 @@ def href(spec):
     return ("href", spec)
 
 
+def dval(d):
+    """declared default as a python value (array defaults are kept as tuples in the hashable spec)"""
+    return list(d) if isinstance(d, tuple) else d
+
+
 def is_h(x):
     return isinstance(x, tuple) and x and x[0] == "hybrid"
 
@@ -40,7 +45,7 @@ def build_h(spec):
             c = xo.Ref(build_h(ft[1])._XoStruct)
         else:
             c = tg.build(ft)
-        xof[fn] = c if dflt is None else xo.Field(c, default=dflt)
+        xof[fn] = c if dflt is None else xo.Field(c, default=dval(dflt))
     data = {"_xofields": xof}
     if rename:
         data["_rename"] = dict(rename)
@@ -134,7 +139,7 @@ def expected(spec, v):
     full = dict(v)
     for fn, ft, d in spec[2]:
         if fn not in full and d is not None:
-            full[fn] = d
+            full[fn] = dval(d)
     return V.expected(t, full)
 
 
@@ -191,6 +196,8 @@ def catalogue(tier="quick"):
         H("HE", [("o", H("Mid", [("k", i8), ("leaf", inn2), ("u", f64, 0.5)])), ("z", arr(f64, [None, None])), ("c", i16)]),
         H("HF", [("p", stat), ("q", stat), ("f", f64, 1.5), ("g", i8)], rename=[("f", "ff")]),
         H("HG", [("r1", href(stat)), ("r2", href(inn)), ("a", arr(i8, [None]))]),
+        # declared defaults of dynamic array fields (a value of another length must not be compared by broadcasting)
+        H("HK", [("v", arr(f64, [None]), (1.0, 1.0, 1.0)), ("w", arr(i16, [None]), (2, 2)), ("c", f64, 4.0), ("t", STR)], rename=[("w", "ww")]),
     ]
     if tier == "thorough":
         cat += [
